@@ -29,4 +29,30 @@ Laws ==
   /\ Answer([op |-> "graphv", v |-> "g", inner |-> Bgp1], D2) = <<>>
   /\ Len(Answer(Bgp1, D1)) = 2 /\ Len(Answer([op |-> "graphv", v |-> "g", inner |-> Bgp1], D1)) = 2 /\ Len(Answer(Bgp3, D1)) = 0
   /\ Len(Answer(Bgp2, D2)) = 1
+  \* quoted-triple patterns: variables inside << >> are those of the group; a quoted-triple pattern only matches quoted triples;
+  \* a pattern with every component a fresh variable matches exactly the quoted-triple objects, binding their components
+  /\ LET Q1 == [k |-> "triple", s |-> Ta, p |-> Pp, o |-> Tb]
+         D4 == {<<Ta, Pp, Q1, DG>>, <<Tb, Pp, Ta, DG>>, <<Q1, Pp, L1, DG>>}
+         qt(a, b, c) == [qt |-> <<a, b, c>>]
+         ObjQ == [op |-> "bgp", tps |-> << <<Vr("s"), T(Pp), qt(Vr("x"), Vr("y"), Vr("z"))>> >>]
+         Shared == [op |-> "bgp", tps |-> << <<Vr("x"), T(Pp), qt(Vr("x"), Vr("y"), Vr("z"))>> >>]
+         Clash == [op |-> "bgp", tps |-> << <<Vr("z"), T(Pp), qt(Vr("x"), Vr("y"), Vr("z"))>> >>]
+         SubjQ == [op |-> "bgp", tps |-> << <<qt(Vr("x"), T(Pp), Vr("z")), Vr("p"), Vr("o")>> >>]
+     IN /\ Len(Answer(ObjQ, D4)) = 1 /\ Answer(ObjQ, D4)[1][<<"v", "x">>] = Ta /\ Answer(ObjQ, D4)[1][<<"v", "z">>] = Tb
+        /\ Len(Answer(Shared, D4)) = 1          \* ?x = <a> outside and inside
+        /\ Len(Answer(Clash, D4)) = 0           \* ?z would be <a> outside and <b> inside
+        /\ Len(Answer(SubjQ, D4)) = 1 /\ Answer(SubjQ, D4)[1][<<"v", "o">>] = L1
+        /\ InScope(Shared) = {"x", "y", "z"}
+  \* unary minus is an involution on integers of any size, and the order relation of dateTimes is irreflexive and asymmetric
+  /\ LET big == [k |-> "lit", lex |-> <<45,57,50,50,51,51,55,50,48,51,54,56,53,52,55,55,53,56,48,56>>, dt |-> XsdInteger, lang |-> <<>>]
+         c(t) == [op |-> "const", term |-> t]
+         neg(e) == [op |-> "neg", a |-> e]
+     IN /\ EvalE(neg(neg(c(big))), << >>) = V(big) /\ EvalE(neg(c(big)), << >>).v.lex = SubSeq(big.lex, 2, Len(big.lex))
+        /\ EvalE(neg(neg(c(L1))), << >>) = V(L1) /\ EvalE(neg(c(Ta)), << >>) = Err
+  /\ LET dt(x) == [k |-> "lit", lex |-> x, dt |-> XsdDateTime, lang |-> <<>>]
+         A == dt(<<50,48,50,48,45,48,49,45,48,49,84,49,48,58,48,48,58,48,48,43,48,53,58,48,48>>)      \* 2020-01-01T10:00:00+05:00
+         Bz == dt(<<50,48,50,48,45,48,49,45,48,49,84,48,56,58,48,48,58,48,48,90>>)                    \* 2020-01-01T08:00:00Z
+         N == dt(<<50,48,50,48,45,48,49,45,48,49,84,48,57,58,48,48,58,48,48>>)                        \* 2020-01-01T09:00:00
+     IN /\ LtV(A, Bz) = B(TRUE) /\ LtV(Bz, A) = B(FALSE) /\ LtV(A, A) = B(FALSE) /\ EqV(A, A) = B(TRUE)
+        /\ LtV(N, Bz) = Err /\ EqV(N, Bz) = Err /\ EqV(A, Bz) = B(FALSE)
 ====
